@@ -1309,7 +1309,10 @@ start_parameter (GMarkupParseContext *context,
   else
     param->nullable = FALSE;
 
-  if (allow_none && strcmp (allow_none, "1") == 0)
+  /* allow-none is the deprecated spelling of nullable/optional: it only
+   * decides when the GIR states neither of them */
+  if (allow_none && strcmp (allow_none, "1") == 0 &&
+      nullable == NULL && optional == NULL)
     {
       if (param->out)
         param->optional = TRUE;
